@@ -5,20 +5,21 @@
 // (exit status 3, message on stderr) when it meets anything else, rather than guessing.
 //
 // What is translated (Go construct -> Coq definition in Gen.v):
-//   api constants.go / encap/ipip.go  string constants            -> resolved inside the translated expressions
-//   felixconfig.go / bgpconfig.go     +kubebuilder Enum markers   -> felix_api_enum, bgp_api_enum
-//   felix/config/config_params.go     struct tag of ProgramClusterRoutes  -> felix_options, felix_default
-//                                     ProgramIPIPClusterRoutes / ProgramNoEncapClusterRoutes  -> felix_prog_ipip / felix_prog_noencap
-//   felix/calc/encapsulation_resolver.go  handleModelPool's call of updatePool, updatePool's set inserts/deletes,
-//                                     IPIPEnabled / VXLANEnabled / VXLANEnabledV6 / NoEncapNeeded -> calc_*
-//   felix/calc/calc_graph.go          condition guarding NewL3RouteResolver  -> l3rr_started
-//   felix/daemon/daemon.go            configParams.Encapsulation.X = encapCalculator.X()  -> wire_enc_*
-//   felix/dataplane/driver.go         fields of the dataplane Config literal  -> wire_dp_*
-//   felix/dataplane/linux/int_dataplane.go  conditions enclosing the creation of the noEncap / VXLAN / IPIP managers -> mgr_*
-//   felix/dataplane/linux/ipip_mgr.go conditions enclosing every use of the IPIP route manager -> ipip_route_gates
-//   confd/pkg/backends/calico/bgp_processor.go  clusterRoutePolicyFromBGPConfig (nil guard, switch arms, default),
-//                                     programsPool, poolUsesIPIP, poolUsesVXLAN, processIPPool -> bird_*
-//   design/cluster-route-programming/DESIGN.md  value table, supported pairings, defaults -> doc_*
+//
+//	api constants.go / encap/ipip.go  string constants            -> resolved inside the translated expressions
+//	felixconfig.go / bgpconfig.go     +kubebuilder Enum markers   -> felix_api_enum, bgp_api_enum
+//	felix/config/config_params.go     struct tag of ProgramClusterRoutes  -> felix_options, felix_default
+//	                                  ProgramIPIPClusterRoutes / ProgramNoEncapClusterRoutes  -> felix_prog_ipip / felix_prog_noencap
+//	felix/calc/encapsulation_resolver.go  handleModelPool's call of updatePool, updatePool's set inserts/deletes,
+//	                                  IPIPEnabled / VXLANEnabled / VXLANEnabledV6 / NoEncapNeeded -> calc_*
+//	felix/calc/calc_graph.go          condition guarding NewL3RouteResolver  -> l3rr_started
+//	felix/daemon/daemon.go            configParams.Encapsulation.X = encapCalculator.X()  -> wire_enc_*
+//	felix/dataplane/driver.go         fields of the dataplane Config literal  -> wire_dp_*
+//	felix/dataplane/linux/int_dataplane.go  conditions enclosing the creation of the noEncap / VXLAN / IPIP managers -> mgr_*
+//	felix/dataplane/linux/ipip_mgr.go conditions enclosing every use of the IPIP route manager -> ipip_route_gates
+//	confd/pkg/backends/calico/bgp_processor.go  clusterRoutePolicyFromBGPConfig (nil guard, switch arms, default),
+//	                                  programsPool, poolUsesIPIP, poolUsesVXLAN, processIPPool -> bird_*
+//	design/cluster-route-programming/DESIGN.md  value table, supported pairings, defaults -> doc_*
 package main
 
 import (
@@ -146,8 +147,8 @@ func pkgConsts(dir string) map[string]string {
 
 // import path -> directory in the tree, for the packages whose constants we resolve
 var importDirs = map[string]string{
-	"github.com/projectcalico/api/pkg/apis/projectcalico/v3":                "api/pkg/apis/projectcalico/v3",
-	"github.com/projectcalico/calico/libcalico-go/lib/backend/encap":       "libcalico-go/lib/backend/encap",
+	"github.com/projectcalico/api/pkg/apis/projectcalico/v3":         "api/pkg/apis/projectcalico/v3",
+	"github.com/projectcalico/calico/libcalico-go/lib/backend/encap": "libcalico-go/lib/backend/encap",
 }
 
 func fileImports(f *ast.File) map[string]string { // local name -> dir
@@ -204,6 +205,8 @@ func (e *env) expr(x ast.Expr) val {
 		return v
 	}
 	switch n := x.(type) {
+	case *ast.BadExpr:
+		refuse("%s: a target is reached only past the statement at %s, which may leave (return / continue / break) under a condition this translator cannot express", e.what, pos(n))
 	case *ast.ParenExpr:
 		return e.expr(n.X)
 	case *ast.Ident:
@@ -246,7 +249,11 @@ func (e *env) expr(x ast.Expr) val {
 	case *ast.BinaryExpr:
 		switch n.Op {
 		case token.LAND, token.LOR:
-			a, b := e.expr(n.X), e.expr(n.Y)
+			a := e.expr(n.X)
+			if a.k == kBool && ((n.Op == token.LAND && a.coq == "false") || (n.Op == token.LOR && a.coq == "true")) {
+				return a // Go does not evaluate the right operand either
+			}
+			b := e.expr(n.Y)
 			if a.k != kBool || b.k != kBool {
 				refuse("%s (%s): %s on non-booleans", e.what, pos(x), n.Op)
 			}
@@ -573,11 +580,93 @@ type hit struct {
 	at    string
 }
 
-// walkConds visits every simple statement of a body together with the `if` conditions enclosing it.
-// `match` is asked about each simple statement / expression and returns labels of targets it contains.
+// hasExit: control can leave the statement list that contains n other than by falling out of n's end:
+// return, goto, a labelled branch, `continue` not inside a loop nested in n, `break` not inside a loop/switch/select nested in n.
+// (Crashes - panic, log.Fatal - are not ownership decisions and do not count.)
+func hasExit(n ast.Node) bool {
+	found := false
+	var stack []ast.Node
+	ast.Inspect(n, func(m ast.Node) bool {
+		if m == nil {
+			stack = stack[:len(stack)-1]
+			return false
+		}
+		if _, ok := m.(*ast.FuncLit); ok {
+			return false
+		}
+		inLoop, inSwitch := false, false
+		for _, x := range stack {
+			switch x.(type) {
+			case *ast.ForStmt, *ast.RangeStmt:
+				inLoop = true
+			case *ast.SwitchStmt, *ast.TypeSwitchStmt, *ast.SelectStmt:
+				inSwitch = true
+			}
+		}
+		stack = append(stack, m)
+		switch st := m.(type) {
+		case *ast.ReturnStmt:
+			found = true
+		case *ast.BranchStmt:
+			switch {
+			case st.Label != nil || st.Tok == token.GOTO:
+				found = true
+			case st.Tok == token.CONTINUE && !inLoop:
+				found = true
+			case st.Tok == token.BREAK && !inLoop && !inSwitch:
+				found = true
+			}
+		}
+		return true
+	})
+	return found
+}
+
+// terminates: the statement list always ends by leaving the enclosing list (return / continue / break / goto)
+func terminates(l []ast.Stmt) bool {
+	if len(l) == 0 {
+		return false
+	}
+	switch n := l[len(l)-1].(type) {
+	case *ast.ReturnStmt:
+		return true
+	case *ast.BranchStmt:
+		return n.Tok != token.FALLTHROUGH
+	case *ast.BlockStmt:
+		return terminates(n.List)
+	case *ast.IfStmt:
+		if n.Else == nil || !terminates(n.Body.List) {
+			return false
+		}
+		return terminates([]ast.Stmt{n.Else})
+	}
+	return false
+}
+
+// a condition the translator cannot express: refused if it ever guards a target
+func poison(n ast.Node) ast.Expr { return &ast.BadExpr{From: n.Pos(), To: n.End()} }
+
+// walkConds visits every simple statement of a body together with the conditions under which it is reached: the
+// conditions of the enclosing `if`s AND the negated conditions of earlier `if c { ...; return/continue/break }`
+// statements of the same (or an enclosing) statement list; an earlier `switch x { case A: return ...; case B: }` contributes
+// "x is one of the non-leaving cases".  An earlier statement that may leave in a way that cannot be expressed poisons what
+// follows (refused when a target is reached under it).
 func walkConds(body *ast.BlockStmt, what string, match func(n ast.Node) []string) []hit {
 	var hits []hit
 	var walk func(stmts []ast.Stmt, conds []ast.Expr)
+	cp := func(conds []ast.Expr, more ...ast.Expr) []ast.Expr {
+		return append(append([]ast.Expr{}, conds...), more...)
+	}
+	contains := func(n ast.Node) bool {
+		inner := false
+		ast.Inspect(n, func(m ast.Node) bool {
+			if m != nil && len(match(m)) > 0 {
+				inner = true
+			}
+			return !inner
+		})
+		return inner
+	}
 	simple := func(n ast.Node, conds []ast.Expr) {
 		if n == nil || reflect.ValueOf(n).IsNil() {
 			return
@@ -606,38 +695,120 @@ func walkConds(body *ast.BlockStmt, what string, match func(n ast.Node) []string
 			case *ast.IfStmt:
 				simple(n.Init, conds)
 				simple(n.Cond, conds)
-				walk(n.Body.List, append(append([]ast.Expr{}, conds...), n.Cond))
+				walk(n.Body.List, cp(conds, n.Cond))
 				neg := &ast.UnaryExpr{Op: token.NOT, X: &ast.ParenExpr{X: n.Cond}}
+				elseT := false
 				switch el := n.Else.(type) {
 				case *ast.BlockStmt:
-					walk(el.List, append(append([]ast.Expr{}, conds...), neg))
+					walk(el.List, cp(conds, neg))
+					elseT = terminates(el.List)
 				case *ast.IfStmt:
-					walk([]ast.Stmt{el}, append(append([]ast.Expr{}, conds...), neg))
+					walk([]ast.Stmt{el}, cp(conds, neg))
+					elseT = terminates([]ast.Stmt{el})
+				}
+				bodyT := terminates(n.Body.List)
+				switch {
+				case bodyT && elseT:
+					return // nothing after this statement is reachable
+				case bodyT && (n.Else == nil || !hasExit(n.Else)):
+					conds = cp(conds, neg)
+				case elseT && !hasExit(n.Body):
+					conds = cp(conds, n.Cond)
+				case hasExit(n):
+					// may leave, but only when the condition holds (no else) - inexpressible beyond that
+					if n.Else == nil {
+						conds = cp(conds, &ast.UnaryExpr{Op: token.NOT, X: &ast.ParenExpr{X: &ast.BinaryExpr{X: n.Cond, Op: token.LAND, Y: poison(n)}}})
+					} else {
+						conds = cp(conds, poison(n))
+					}
 				}
 			case *ast.BlockStmt:
 				walk(n.List, conds)
+				if hasExit(n) {
+					conds = cp(conds, poison(n))
+				}
 			case *ast.ForStmt:
 				simple(n.Init, conds)
 				walk(n.Body.List, conds)
+				if hasExit(n) {
+					conds = cp(conds, poison(n))
+				}
 			case *ast.RangeStmt:
 				walk(n.Body.List, conds)
+				if hasExit(n) {
+					conds = cp(conds, poison(n))
+				}
 			case *ast.TypeSwitchStmt: // message dispatch: the clauses are not configuration conditions
 				for _, c := range n.Body.List {
 					walk(c.(*ast.CaseClause).Body, conds)
 				}
-			case *ast.SwitchStmt, *ast.SelectStmt:
-				inner := false
-				ast.Inspect(n, func(m ast.Node) bool {
-					if m != nil && len(match(m)) > 0 {
-						inner = true
+				if hasExit(n) {
+					conds = cp(conds, poison(n))
+				}
+			case *ast.SwitchStmt:
+				if contains(n) {
+					refuse("%s (%s): a target statement sits inside a switch the translator does not interpret", what, pos(s))
+				}
+				if !hasExit(n) {
+					break
+				}
+				// switch <tag> { case A, B: (stays) ; case C: return ... ; default: return ... }
+				if n.Init != nil || n.Tag == nil {
+					conds = cp(conds, poison(n))
+					break
+				}
+				var stay, leave []ast.Expr
+				defaultLeaves, hasDefault, ok := false, false, true
+				for _, c := range n.Body.List {
+					cc := c.(*ast.CaseClause)
+					t := terminates(cc.Body)
+					if !t && hasExit(&ast.BlockStmt{List: cc.Body}) {
+						ok = false
 					}
-					return !inner
-				})
-				if inner {
-					refuse("%s (%s): a target statement sits inside a switch/select the translator does not interpret", what, pos(s))
+					if cc.List == nil {
+						hasDefault, defaultLeaves = true, t
+						continue
+					}
+					for _, x := range cc.List {
+						eq := &ast.BinaryExpr{X: n.Tag, Op: token.EQL, Y: x}
+						if t {
+							leave = append(leave, eq)
+						} else {
+							stay = append(stay, eq)
+						}
+					}
+				}
+				or := func(l []ast.Expr) ast.Expr {
+					var r ast.Expr = ast.NewIdent("false")
+					for i, x := range l {
+						if i == 0 {
+							r = x
+						} else {
+							r = &ast.BinaryExpr{X: r, Op: token.LOR, Y: x}
+						}
+					}
+					return r
+				}
+				switch {
+				case !ok:
+					conds = cp(conds, poison(n))
+				case hasDefault && defaultLeaves:
+					conds = cp(conds, &ast.ParenExpr{X: or(stay)})
+				default:
+					conds = cp(conds, &ast.UnaryExpr{Op: token.NOT, X: &ast.ParenExpr{X: or(leave)}})
+				}
+			case *ast.SelectStmt:
+				if contains(n) {
+					refuse("%s (%s): a target statement sits inside a select the translator does not interpret", what, pos(s))
+				}
+				if hasExit(n) {
+					conds = cp(conds, poison(n))
 				}
 			case *ast.LabeledStmt:
 				walk([]ast.Stmt{n.Stmt}, conds)
+				if hasExit(n) {
+					conds = cp(conds, poison(n))
+				}
 			default:
 				simple(s, conds)
 			}
@@ -650,6 +821,9 @@ func walkConds(body *ast.BlockStmt, what string, match func(n ast.Node) []string
 func (e *env) conj(conds []ast.Expr) string {
 	out := "true"
 	for i, c := range conds {
+		if bad, isBad := c.(*ast.BadExpr); isBad {
+			refuse("%s: a target is reached only past the statement at %s, which may leave (return / continue / break) under a condition this translator cannot express", e.what, pos(bad))
+		}
 		var b string
 		if u, ok := c.(*ast.UnaryExpr); ok && u.Op == token.NOT {
 			if p, ok := u.X.(*ast.ParenExpr); ok {
@@ -871,10 +1045,13 @@ func felixSide(o *out) {
 	// ---- encapsulation calculator
 	const er = "felix/calc/encapsulation_resolver.go"
 	f = parseFile(er)
-	{ // handleModelPool: c.updatePool(poolKey, <ipip>, <vxlan>)
-		fd := findFunc(f, "EncapsulationCalculator", "handleModelPool")
-		hits := walkConds(fd.Body, er+":handleModelPool", callsOf("c.updatePool"))
-		h := oneHit(hits, "c.updatePool", er+":handleModelPool")
+	// handleModelPool (calc-graph / syncer path) and handleAPIPool (start-up path): under which conditions on the update and
+	// on the pool's attributes c.updatePool(cidr, <ipip>, <vxlan>) is reached, and with which arguments.  Any pool attribute
+	// other than the ones named in the atom tables below is refused.
+	poolPath := func(fn, prefix string, atoms map[string]val, params string) {
+		fd := findFunc(f, "EncapsulationCalculator", fn)
+		hits := walkConds(fd.Body, er+":"+fn, callsOf("c.updatePool"))
+		h := oneHit(hits, "c.updatePool", er+":"+fn)
 		var call *ast.CallExpr
 		ast.Inspect(fd.Body, func(n ast.Node) bool {
 			if c, ok := n.(*ast.CallExpr); ok && text(c.Fun) == "c.updatePool" {
@@ -885,14 +1062,53 @@ func felixSide(o *out) {
 		if len(call.Args) != 3 {
 			refuse("%s: updatePool no longer takes (cidr, ipipEnabled, vxlanEnabled)", er)
 		}
-		// the call must be reached exactly when the update carries a pool (p.Value != nil)
-		e := newEnv(f, er+":handleModelPool", map[string]val{
-			"p.Value == nil": bAtom("is_delete"), "p.Value != nil": bAtom("(negb is_delete)"),
-			"pool.IPIPMode": sAtom("ipip_mode"), "pool.VXLANMode": sAtom("vxlan_mode"),
-		})
-		o.def(er+": handleModelPool reaches updatePool when ...", "calc_pool_update_reached", "(is_delete : bool)", "bool", e.conj(h.conds))
-		o.def(er+": handleModelPool: 2nd argument of updatePool = "+text(call.Args[1]), "calc_pool_ipip_enabled", "(ipip_mode vxlan_mode : string)", "bool", e.boolExpr(call.Args[1]))
-		o.def(er+": handleModelPool: 3rd argument of updatePool = "+text(call.Args[2]), "calc_pool_vxlan_enabled", "(ipip_mode vxlan_mode : string)", "bool", e.boolExpr(call.Args[2]))
+		e := newEnv(f, er+":"+fn, atoms)
+		arg := func(x ast.Expr) string { // a local defined once by `x := e` stands for e
+			if id, ok := x.(*ast.Ident); ok && id.Obj != nil {
+				if d, ok := id.Obj.Decl.(*ast.AssignStmt); ok && d.Tok == token.DEFINE && len(d.Lhs) == 1 && len(d.Rhs) == 1 {
+					nAssign := 0
+					ast.Inspect(fd.Body, func(n ast.Node) bool {
+						if as, ok := n.(*ast.AssignStmt); ok {
+							for _, l := range as.Lhs {
+								if li, ok := l.(*ast.Ident); ok && li.Obj == id.Obj {
+									nAssign++
+								}
+							}
+						}
+						return true
+					})
+					if nAssign != 1 {
+						refuse("%s:%s: %s is assigned more than once", er, fn, id.Name)
+					}
+					return e.boolExpr(d.Rhs[0])
+				}
+			}
+			return e.boolExpr(x)
+		}
+		o.def(er+": "+fn+" reaches updatePool when ...", prefix+"_update_reached", params, "bool", e.conj(h.conds))
+		o.def(er+": "+fn+": 2nd argument of updatePool = "+text(call.Args[1]), prefix+"_ipip_enabled", "(ipip_mode vxlan_mode : string)", "bool", arg(call.Args[1]))
+		o.def(er+": "+fn+": 3rd argument of updatePool = "+text(call.Args[2]), prefix+"_vxlan_enabled", "(ipip_mode vxlan_mode : string)", "bool", arg(call.Args[2]))
+	}
+	// `ok` of the type assertions is true: handlePool dispatches on exactly these dynamic types
+	poolPath("handleModelPool", "calc_pool", map[string]val{
+		"p.Value == nil": bAtom("is_delete"), "p.Value != nil": bAtom("(negb is_delete)"), "ok": bAtom("true"),
+		"pool.IPIPMode": sAtom("ipip_mode"), "pool.VXLANMode": sAtom("vxlan_mode"),
+		"pool.Disabled": bAtom("disabled"), "pool.Masquerade": bAtom("nat_outgoing"), "pool.DisableBGPExport": bAtom("disable_bgp_export"),
+	}, "(is_delete disabled nat_outgoing disable_bgp_export : bool) (ipip_mode vxlan_mode : string)")
+	poolPath("handleAPIPool", "calc_api_pool", map[string]val{
+		"p.Value == nil": bAtom("is_delete"), "p.Value != nil": bAtom("(negb is_delete)"), "ok": bAtom("true"),
+		"pool.Spec.IPIPMode": sAtom("ipip_mode"), "pool.Spec.VXLANMode": sAtom("vxlan_mode"),
+		"pool.Spec.Disabled": bAtom("disabled"), "pool.Spec.NATOutgoing": bAtom("nat_outgoing"), "pool.Spec.DisableBGPExport": bAtom("disable_bgp_export"),
+	}, "(is_delete disabled nat_outgoing disable_bgp_export : bool) (ipip_mode vxlan_mode : string)")
+	{
+		api := pkgConsts("api/pkg/apis/projectcalico/v3")
+		for _, n := range []string{"IPIPModeNever", "IPIPModeAlways", "IPIPModeCrossSubnet", "VXLANModeNever", "VXLANModeAlways", "VXLANModeCrossSubnet"} {
+			v, ok := api[n]
+			if !ok {
+				refuse("api/pkg/apis/projectcalico/v3: string constant %s not found", n)
+			}
+			o.def("api/pkg/apis/projectcalico/v3: const "+n, "api_"+n, "", "string", coqString(v))
+		}
 	}
 	{ // updatePool: which sets the pool is put into / removed from
 		fd := findFunc(f, "EncapsulationCalculator", "updatePool")
@@ -963,7 +1179,7 @@ func felixSide(o *out) {
 		return map[string]val{
 			"c.config == nil": bAtom("cfg_nil"), "c.config != nil": bAtom("(negb cfg_nil)"),
 			"c.config.IpInIpEnabled != nil": bAtom("ipip_ovr_set"), "c.config.IpInIpEnabled == nil": bAtom("(negb ipip_ovr_set)"),
-			"*c.config.IpInIpEnabled": bAtom("ipip_ovr_val"),
+			"*c.config.IpInIpEnabled":      bAtom("ipip_ovr_val"),
 			"c.config.VXLANEnabled != nil": bAtom("vxlan_ovr_set"), "c.config.VXLANEnabled == nil": bAtom("(negb vxlan_ovr_set)"),
 			"*c.config.VXLANEnabled":                 bAtom("vxlan_ovr_val"),
 			"c.config.ProgramNoEncapClusterRoutes()": bAtom("prog_noencap"),
@@ -1093,6 +1309,7 @@ func felixSide(o *out) {
 				"config.NoEncapNeeded": bAtom("dp_noencap_needed"), "config.RulesConfig.IPIPEnabled": bAtom("dp_ipip"),
 				"config.RulesConfig.VXLANEnabled": bAtom("dp_vxlan"), "config.RulesConfig.VXLANEnabledV6": bAtom("dp_vxlan6"),
 				"config.IPv6Enabled": bAtom("ipv6"), "config.BPFEnabled": bAtom("bpf"),
+				"err != nil": bAtom("false"), // start-up failures (MTU detection ...) abort Felix: not an ownership decision
 			})
 			o.def(idp+" ("+h.at+"): "+mg+" is created when ...", "mgr_"+strings.TrimPrefix(mg, "dp."),
 				"(dp_prog_ipip dp_prog_noencap dp_noencap_needed dp_ipip dp_vxlan dp_vxlan6 ipv6 bpf : bool)", "bool", e.conj(h.conds))
@@ -1282,6 +1499,23 @@ func birdSide(o *out) {
 		if !okPolicy || !okKernel {
 			refuse("%s: processIPPools: policy := clusterRoutePolicyFromBGPConfig(pc.globalBGPConfig, _) / c.processIPPool(&ippool, policy, true, filterActionForKernel, ...) not found", bp)
 		}
+		// under which conditions (on the family, on whether the local subnet is known, on the POOL'S ATTRIBUTES) the kernel
+		// statement of a pool is produced at all; `err != nil` (datastore read / JSON decoding failed) is taken to be false
+		hits := walkConds(fd.Body, bp+":processIPPools", func(n ast.Node) []string {
+			if c, ok := n.(*ast.CallExpr); ok && text(c.Fun) == "c.processIPPool" && len(c.Args) == 6 && text(c.Args[2]) == "true" {
+				return []string{"kernel"}
+			}
+			return nil
+		})
+		h := oneHit(hits, "kernel", bp+":processIPPools")
+		e := newEnv(f, bp+":processIPPools", map[string]val{
+			"err != nil": bAtom("false"), "err == nil": bAtom("true"),
+			"ipVersion == 6": bAtom("(negb is_v4)"), "ipVersion == 4": bAtom("is_v4"),
+			"localSubnetErr == nil": bAtom("subnet_ok"), "localSubnetErr != nil": bAtom("(negb subnet_ok)"),
+			"ippool.Disabled": bAtom("disabled"), "ippool.Masquerade": bAtom("nat_outgoing"), "ippool.DisableBGPExport": bAtom("disable_bgp_export"),
+		})
+		o.def(bp+": processIPPools produces the pool's kernel-filter statement when ...", "bird_kernel_stmt_produced",
+			"(is_v4 subnet_ok disabled nat_outgoing disable_bgp_export : bool)", "bool", e.conj(h.conds))
 	}
 }
 
@@ -1370,6 +1604,10 @@ const gRecord = `Definition G : gen := {|
   g_prog_ipip := felix_prog_ipip; g_prog_noencap := felix_prog_noencap;
   g_pool_reached := calc_pool_update_reached;
   g_pool_ipip := calc_pool_ipip_enabled; g_pool_vxlan := calc_pool_vxlan_enabled;
+  g_api_reached := calc_api_pool_update_reached;
+  g_api_ipip := calc_api_pool_ipip_enabled; g_api_vxlan := calc_api_pool_vxlan_enabled;
+  g_api_modes := ((api_IPIPModeNever, api_IPIPModeAlways, api_IPIPModeCrossSubnet), (api_VXLANModeNever, api_VXLANModeAlways, api_VXLANModeCrossSubnet));
+  g_bird_stmt_produced := bird_kernel_stmt_produced;
   g_ins_ipip := calc_upd_ins_ipipPools; g_del_ipip := calc_upd_del_ipipPools;
   g_ins_vxlan := calc_upd_ins_vxlanPools; g_del_vxlan := calc_upd_del_vxlanPools;
   g_ins_vxlan6 := calc_upd_ins_vxlanPoolsv6; g_del_vxlan6 := calc_upd_del_vxlanPoolsv6;
